@@ -194,7 +194,7 @@ class W:
         # versioned kind is not "directory" is C09 / C11 territory)
         dirs = [""] + [p for p in vp if isdir(p) and p in vdirs]
         kind = rng.choice(["addfile", "addfile", "mkdir", "symlink", "modify", "modify", "chmod", "rename", "rename",
-                           "rename", "remove", "remove", "delete", "kind", "kind", "readd"])
+                           "rename", "remove", "remove", "delete", "delete", "delete", "kind", "kind", "readd"])
 
         def newpath():
             d = rng.choice(dirs)
@@ -265,7 +265,19 @@ def build_script(fmt, rng, pick):
         op = ("commit", c + 1)
         w.apply(op)
         script.append(op)
-    w.gen_ops(rng, rng.randrange(2, pick(9, 14)), script)
+    w.gen_ops(rng, rng.randrange(3, pick(11, 14)), script)
+    if ncommits and rng.random() < 0.6:
+        # make sure renames of committed entries are common (git: rename pairs of the detector)
+        with w.wt.lock_read():
+            bt = w.wt.basis_tree()
+            with bt.lock_read():
+                committed = [p for p, ie in bt.iter_entries_by_dir() if p and ie.kind != "directory"]
+        cands = [p for p in committed if p in w.versioned() and os.path.lexists(w.full(p))]
+        free = [n for n in NAMES + ["e"] if not os.path.lexists(w.full(n))]
+        if cands and free:
+            op = ("rename", rng.choice(cands), rng.choice(free))
+            w.apply_safe(op)
+            script.append(op)
     return w, script
 
 
@@ -667,6 +679,8 @@ def run_bzr_query(base, basis, wtsnap, sel, excl, variant="strict"):
         if tip1 != (tip0[0] + 1, rid) or sorted(set(revs0) | {rid}) != revs1:
             viol.append(("O5 tip %r -> %r, revisions +%r" % (tip0, tip1, sorted(set(revs1) - set(revs0))), None))
         counters.append("bzr:recorded:%d" % min(len(S), 6))
+        if any(e["kind"] == "missing" and i in basis and i in S for i, e in wtsnap.items()):
+            counters.append("bzr:missing-recorded-as-removal")
         return dict(impl=impl, S=S, vac=vac, viol=viol, counters=counters, below=below)
     finally:
         shutil.rmtree(d, ignore_errors=True)
@@ -793,9 +807,46 @@ def run_git_query(base, basis, wtsnap, changes, sel, excl):
             if new.get(p) != exp:
                 viol.append(("%s path %r is %r in the new revision, expected %r (basis %r, working %r)" % (
                     "O1 selected" if selected else "O2 unselected", p, new.get(p), exp, basis.get(p), eff.get(p)), None))
+        written_by_kept = set()
+        for a, b in changes:
+            if a is not None and b is not None and a != b:
+                kept = (sel is None or inside_or_parent(sel, a) or inside_or_parent(sel, b)) and not (
+                    inside(excl, a) or inside(excl, b))
+                if kept and b in eff:
+                    written_by_kept.add(b)
+        for a, b in changes:
+            if a is None or b is None or a == b:
+                continue
+            kept = (sel is None or inside_or_parent(sel, a) or inside_or_parent(sel, b)) and not (inside(excl, a) or inside(excl, b))
+            counters.append("git:rename-pair-%s" % ("kept" if kept else "dropped"))
+            if kept:
+                if new.get(b) != eff.get(b):
+                    viol.append(("O1 rename %r -> %r selected: new path is %r in the new revision, working tree has %r" % (
+                        a, b, new.get(b), eff.get(b)), None))
+                if a not in written_by_kept and a in new and a not in eff:
+                    viol.append(("O1 rename %r -> %r selected but the old path is still in the new revision" % (a, b), None))
+        old_of_kept = {a for a, b in changes if a is not None and b is not None and a != b and (
+            sel is None or inside_or_parent(sel, a) or inside_or_parent(sel, b)) and not (inside(excl, a) or inside(excl, b))}
         for p in sorted(paired):
+            if new.get(p) is None and p in old_of_kept:
+                continue            # the rename was committed: the old path is gone even if something new sits there
             if new.get(p) not in (basis.get(p), eff.get(p)):
                 viol.append(("O2 path %r is %r in the new revision: neither basis nor working content" % (p, new.get(p)), None))
+        if sel is None and not excl and new != eff:
+            viol.append(("O1 full commit: the new revision differs from the working tree on %r" % sorted(
+                p for p in set(new) | set(eff) if new.get(p) != eff.get(p)), None))
+        # the selection asks for a tree that cannot exist: a path to record lies below a path that stays a file
+        # (or the other way round); GitCommitBuilder neither refuses nor reports it
+        want = {}
+        for p in allp:
+            selected = (sel is None or inside_or_parent(sel, p)) and not inside(excl, p)
+            e = eff.get(p) if (selected or p in written_by_kept) else basis.get(p)
+            if e is not None:
+                want[p] = e
+        conflict = any("/".join(p.split("/")[:k]) in want for p in want for k in range(1, len(p.split("/"))))
+        if conflict:
+            counters.append("git:file-directory-conflict")
+            viol[:] = [(w_, f_ or "git-partial-commit-file-directory-conflict") for w_, f_ in viol]
         # O4: the paths the commit recorded are clean afterwards, the index still knows them
         recorded = {p for p in allp | set(new) if new.get(p) != basis.get(p)}
         for p in sorted(recorded):
@@ -817,7 +868,7 @@ def run_git_query(base, basis, wtsnap, changes, sel, excl):
             viol.append(("O4 basis tree after commit is not the new revision", None))
         if tip1[1] != rid or (tip0[0] is not None and tip1[0] != tip0[0] + 1) or sorted(set(revs0) | {rid}) != revs1:
             viol.append(("O5 tip %r -> %r, revisions +%r" % (tip0, tip1, sorted(set(revs1) - set(revs0))), None))
-        return dict(impl=impl, viol=viol, counters=counters)
+        return dict(impl=impl, viol=viol, counters=counters, conflict=conflict)
     finally:
         shutil.rmtree(d, ignore_errors=True)
 
@@ -915,19 +966,25 @@ def run_fault(base, stage, when):
         basis0 = wt.last_revision()
         raised = None
         undo = _install_fault(stage, when) if stage not in (None, "message") else (lambda: None)
-        try:
+        # the caller holds the tree lock around commit() (as cmd_commit does): a write group the
+        # pipeline leaves open is then still open when commit() returns
+        with wt.lock_write():
             try:
-                if stage == "message":
-                    def cb(c):
-                        raise Injected("message")
-                    wt.commit(message_callback=cb, rev_id=b"new")
-                else:
-                    wt.commit("q", rev_id=b"new")
-            except Injected as e:
-                raised = e
-        finally:
-            undo()
-        in_group = wt.branch.repository.is_in_write_group()
+                try:
+                    if stage == "message":
+                        def cb(c):
+                            raise Injected("message")
+                        wt.commit(message_callback=cb, rev_id=b"new")
+                    else:
+                        wt.commit("q", rev_id=b"new")
+                except Injected as e:
+                    raised = e
+            finally:
+                undo()
+            in_group = wt.branch.repository.is_in_write_group()
+            if in_group:
+                viol.append(("commit raised at stage %s and left the repository write group open" % stage, None))
+                wt.branch.repository.abort_write_group()
         wt = WorkingTree.open(d)
         revs1, tip1 = repo_state(wt)
         basis1 = wt.last_revision()
@@ -1122,8 +1179,8 @@ def scenario_worker(args):
                                      counters=r["counters"]))
                     continue
                 recs.append(dict(kind="git", case=case, npend=npend,
-                                 line="git %s %s %s %s %s" % (enc_sel(sel), enc_paths(excl), enc_gchanges(changes),
-                                                              enc_gtree(basis), enc_gtree(eff)),
+                                 line=None if r.get("conflict") else "git %s %s %s %s %s" % (
+                                     enc_sel(sel), enc_paths(excl), enc_gchanges(changes), enc_gtree(basis), enc_gtree(eff)),
                                  impl=r["impl"], viol=r["viol"], counters=r["counters"]))
     except Exception as e:
         import traceback
@@ -1231,7 +1288,7 @@ def run(ctx):
         ctx.mismatch(dict(kind="probe"), variant, "strict | lax")
         variant = VARIANT = "strict"
     nsc = ctx.pick(14, 70)
-    ngit = ctx.pick(8, 40)
+    ngit = ctx.pick(10, 40)
     nq = ctx.pick(7, 14)
     jobs = []
     for k in range(nsc):
